@@ -214,6 +214,13 @@ let () =
                 fail id "SPEC" "expected_unequal_under_tolerance" (Printf.sprintf "%s tol=%s io=%b" cls tols.(ti) io))
             [false; true]
         done;
+      (* U0: by construction (integer pre-image) some corresponding vertex pair is further apart
+         than every listed tolerance, or differs in Z/M: false without IgnoreOrder, both orders *)
+      if has "U0" then
+        for ti = 1 to nt - 1 do
+          if ob ti false 0 || ob ti false 1 then
+            fail id "SPEC" "expected_unequal_under_tolerance" (Printf.sprintf "%s tol=%s io=false" cls tols.(ti))
+        done;
       (* SPEC: no option makes values with different numbers of control points (or of empty points) equal *)
       let rec census (g : n geomT) : int * int =
         let pt (MkPoint (_, c)) = (match c with None -> (0, 1) | Some _ -> (1, 0)) in
